@@ -230,6 +230,12 @@ pub fn scenario(full_name: &str, cycles: usize) -> Option<Program> {
             "A",
             vec![root(0, "r", 1), child(1, "c", 0), Op::Noop { slot: 2 }, cancel(1), cancel(2), finish(2), finish(1), finish(0)],
         ),
+        // set_reporter called again while spans are open and the collector is at work
+        "SR1" => p.worker("A", vec![root(0, "r", 1), Op::SetReporter, finish(0)]).worker("B", vec![root(1, "q", 2), finish(1)]),
+        // ... by a thread that does nothing else, while another thread traces for the first time
+        "SR2" => p
+            .worker("A", vec![Op::SetReporter])
+            .worker("B", vec![root(1, "q", 2), scope(1), lenter("l"), pop(), pop(), finish(1)]),
         _ => return None,
     };
     if warm {
@@ -472,6 +478,36 @@ pub fn future_programs(thorough: bool) -> Vec<Program> {
             out.push(lockstep(&name("eop"), &s));
         }
     }
+    // enter_on_poll polled under a different local context every time: no local parent, a sampled
+    // scope, an unsampled scope (what one poll found must not be remembered for the next)
+    for polls in 2..=3u32 {
+        let kinds = 3u32;
+        for code in 0..kinds.pow(polls) {
+            let ctx: Vec<u32> = (0..polls).map(|i| (code / kinds.pow(i)) % kinds).collect();
+            if ctx.iter().all(|c| *c == ctx[0]) {
+                continue;
+            }
+            let mut s: Vec<(usize, Op)> = vec![(0, root(0, "r", 0x13)), (0, root_full(1, "u", 0x1305, 3, false, vec![]))];
+            s.push((0, Op::MkEnterOnPoll { fut: 0, polls, tag: "f".into() }));
+            for c in &ctx {
+                match c {
+                    1 => s.push((0, scope(0))),
+                    2 => s.push((0, scope(1))),
+                    _ => {}
+                }
+                s.push((0, Op::ObserveLocal));
+                s.push((0, Op::Poll { fut: 0 }));
+                s.push((0, Op::ObserveLocal));
+                if *c != 0 {
+                    s.push((0, pop()));
+                }
+            }
+            s.push((0, Op::DropFut { fut: 0 }));
+            s.push((0, finish(1)));
+            s.push((0, finish(0)));
+            out.push(lockstep(&name("eop-mixed"), &s));
+        }
+    }
     out
 }
 
@@ -534,7 +570,7 @@ pub fn stream_sink_programs(thorough: bool) -> Vec<Program> {
     }
     {
         let mut s: Vec<(usize, Op)> = vec![(0, root(0, "r", 0x15)), (0, root_full(1, "u", 0x1505, 3, false, vec![]))];
-        s.push((0, Op::MkSink { fut: 0, slot: 1, tag: "sk".into(), pending_first: true }));
+        s.push((0, Op::MkSink { fut: 0, slot: 1, tag: "sk".into(), pending_first: true, failing: false }));
         s.push((0, scope(0)));
         for op in [Op::SinkReady { fut: 0 }, Op::SinkSend { fut: 0 }, Op::SinkFlush { fut: 0 }, Op::SinkClose { fut: 0 }, Op::SinkClose { fut: 0 }] {
             s.push((0, Op::ObserveLocal));
@@ -567,9 +603,13 @@ pub fn stream_sink_programs(thorough: bool) -> Vec<Program> {
         }
         all
     };
-    for pending_first in [false, true] {
+    for (pending_first, failing) in [(false, false), (true, false), (false, true), (true, true)] {
         for span_is_root in [true, false] {
             for cs in &calls {
+                // (an inner sink whose ready / send / flush fail: the span still ends at close or drop)
+                if failing && !thorough && cs.len() < 2 {
+                    continue;
+                }
                 // stop sequences at the completing close
                 let mut closes = 0;
                 let mut valid = true;
@@ -596,7 +636,7 @@ pub fn stream_sink_programs(thorough: bool) -> Vec<Program> {
                         s.push((0, child(1, "c", 0)));
                         1
                     };
-                    s.push((0, Op::MkSink { fut: 0, slot, tag: "sk".into(), pending_first }));
+                    s.push((0, Op::MkSink { fut: 0, slot, tag: "sk".into(), pending_first, failing }));
                     let mut last = 0;
                     for (i, c) in cs.iter().enumerate() {
                         let a = if i >= second_actor_from { 1 } else { 0 };
@@ -609,7 +649,7 @@ pub fn stream_sink_programs(thorough: bool) -> Vec<Program> {
                     if !span_is_root {
                         s.push((last, finish(0)));
                     }
-                    out.push(lockstep(&name("sink"), &s));
+                    out.push(lockstep(&name(if failing { "sink-failing" } else { "sink" }), &s));
                 }
             }
         }
@@ -770,6 +810,25 @@ pub fn local_limit_programs() -> Vec<Program> {
             ops.push(pop());
             ops.push(finish(0));
             out.push(Program::new(format!("C09-locals#{idx}")).worker("A", ops).collector(1, true, 0));
+        }
+    }
+    // the same with no local span open while the scope fills up: spans refused at the top level of
+    // the scope, then thread-safe children and contexts taken through the local parent
+    let extra_top: Vec<Vec<Op>> = vec![
+        vec![lenter("x1"), pop(), lchild(3, "xc"), finish(3)],
+        vec![lenter("x1"), lchild(3, "xc"), finish(3), pop(), Op::ObserveLocal],
+        vec![lenter("x1"), pop(), Op::ObserveLocal, lenter("x2"), pop(), lchild(3, "xc"), Op::ObserveSpan { slot: 3 }, finish(3)],
+        vec![lenter("x1"), lenter("x2"), pop(), pop(), lchild(3, "xc"), finish(3), levent("xe")],
+        vec![levent("xe"), lprop("xk", "xv"), lchild(3, "xc"), finish(3)],
+    ];
+    for leave in [0usize, 1, 2] {
+        for ex in &extra_top {
+            idx += 1;
+            let mut ops = vec![root(0, "r", 0x9B), scope(0), Op::FillLocalSpans { leave }];
+            ops.extend(ex.iter().cloned());
+            ops.push(pop());
+            ops.push(finish(0));
+            out.push(Program::new(format!("C09-locals-top#{idx}")).worker("A", ops).collector(1, true, 0));
         }
     }
     out
@@ -1002,6 +1061,48 @@ pub fn late_push_programs() -> Vec<Program> {
             }
         }
     }
+    // pushed to a span that itself has several parents: roots with different trace ids, and roots
+    // that carry the same trace id (two requests continuing one distributed trace); directly and to
+    // a child of the merged span; roots finished before or after
+    for same_id in [false, true] {
+        for n_roots in [2usize, 3] {
+            for below in [false, true] {
+                for roots_first in [false, true] {
+                    idx += 1;
+                    let mut ops = vec![Op::LcStart, lenter("a"), levent("a.e"), lenter("b"), pop(), pop(), lenter("c"), lprop("c.k", "c.v"), pop(), Op::LcCollect { set: 0 }];
+                    let roots: Vec<u32> = (0..n_roots as u32).map(|k| 10 + k).collect();
+                    for (k, r) in roots.iter().enumerate() {
+                        let id = if same_id { 0x17A } else { 0x17A + k as u128 };
+                        ops.push(Op::Root { slot: *r, name: format!("r{k}"), trace: U128(id), remote_parent: 0x50 + k as u64, sampled: true, props: vec![] });
+                    }
+                    ops.push(Op::Child { slot: 20, name: "m".into(), parents: roots.clone(), single: false, props: vec![] });
+                    let target = if below {
+                        ops.push(child(21, "mc", 20));
+                        21
+                    } else {
+                        20
+                    };
+                    if roots_first {
+                        for r in &roots {
+                            ops.push(finish(*r));
+                        }
+                    }
+                    ops.push(Op::PushChildSpans { set: 0, slot: target });
+                    ops.push(Op::DropSet { set: 0 });
+                    if below {
+                        ops.push(finish(21));
+                    }
+                    ops.push(finish(20));
+                    if !roots_first {
+                        for r in &roots {
+                            ops.push(finish(*r));
+                        }
+                    }
+                    out.push(Program::new(format!("C17-merged#{idx}")).worker("A", ops));
+                }
+            }
+        }
+    }
     out
 }
 
@@ -1129,5 +1230,30 @@ pub fn long_span_programs() -> Vec<Program> {
         finish(1),
         finish(0),
     ];
-    vec![Program::new("C18-long#1").worker("A", ops).collector(0, true, 0)]
+    let mut out = vec![Program::new("C18-long#1").worker("A", ops).collector(0, true, 0)];
+    // events built ahead of time: the timestamp is when the event is recorded, not when the value
+    // was made (it lies inside the local span it is recorded in)
+    let pre = |n: &str| Op::LocalAddEvent { name: format!("pre.{n}"), props: vec![] };
+    let build = |n: &str| Op::BuildEvent { name: format!("pre.{n}") };
+    let ops = vec![
+        build("top"),
+        build("in-l"),
+        build("in-m"),
+        root(0, "r", 0x18D),
+        scope(0),
+        Op::BusyWait { micros: 200 },
+        lenter("l"),
+        pre("in-l"),
+        build("late"),
+        lenter("m"),
+        pre("in-m"),
+        pre("late"),
+        pop(),
+        pop(),
+        pre("top"),
+        pop(),
+        finish(0),
+    ];
+    out.push(Program::new("C18-prebuilt#1").worker("A", ops).collector(0, true, 0));
+    out
 }
